@@ -1241,11 +1241,24 @@ func (g *schemaGenerator) generateEnumType(t *schemas.Type, scope nameScope) (co
 
 	// TODO: May be aliased string type.
 	if prim, ok := enumType.(codegen.PrimitiveType); ok && prim.Type == "string" {
+		// Values such as "a b" and "a_b" map to the same identifier: later ones get a _N suffix, like
+		// colliding field names, or the constant would be declared twice.
+		taken := make(map[string]bool, len(t.Enum))
+
 		for _, v := range t.Enum {
 			if s, ok := v.(string); ok {
 				// TODO: Make sure the name is unique across scope.
+				baseName := g.makeEnumConstantName(enumDecl.Name, s)
+				name := baseName
+
+				for n := 2; taken[name]; n++ {
+					name = fmt.Sprintf("%s_%d", baseName, n)
+				}
+
+				taken[name] = true
+
 				g.output.file.Package.AddDecl(&codegen.Constant{
-					Name:  g.makeEnumConstantName(enumDecl.Name, s),
+					Name:  name,
 					Type:  &codegen.NamedType{Decl: &enumDecl},
 					Value: s,
 				})
